@@ -53,6 +53,11 @@ MUTANTS = [
      "        self._split_distribution.update(other._split_distribution)", "TreeArray.update: one parallel list not extended"),
     ("C06", TC, "        self._tree_weights.extend(other._tree_weights)\n        self._split_distribution.update(other._split_distribution)",
      "        self._tree_weights.extend(other._tree_weights)", "TreeArray.update: summaries not merged"),
+    ("C06", TC, "        self._tree_split_bitmasks.extend(other._tree_split_bitmasks)", "        self._tree_split_bitmasks = other._tree_split_bitmasks if not self._tree_split_bitmasks else self._tree_split_bitmasks + other._tree_split_bitmasks",
+     "TreeArray.update: an empty master adopts the operand's list object"),
+    ("C06", "dendropy/application/sumtrees.py", "            tree_source = self.work_queue.get()\n            if tree_source is None:\n                break",
+     "            try:\n                tree_source = self.work_queue.get_nowait()\n            except queue.Empty:\n                break\n            if tree_source is None:\n                break",
+     "SumTrees worker: polls the work queue and takes 'empty' for 'no work left'"),
     ("C07", TM + "_edge.py", "        old_tail_node.edge.length, old_head_node.edge.length = (\n            old_head_node.edge.length,\n            old_tail_node.edge_length,\n        )",
      "        pass", "Edge.invert: lengths not exchanged"),
     ("C08", TM + "_tree.py", "        to_prune = [t for t in self.taxon_namespace if t not in taxa]", "        to_prune = [t for t in self.taxon_namespace if t in taxa]",
@@ -97,6 +102,13 @@ MUTANTS = [
     ("C19", "dendropy/datamodel/charmatrixmodel.py", "                if not is_add_new_sequences:\n                    continue", "                if is_add_new_sequences:\n                    continue",
      "extend_sequences: flag inverted"),
     ("C19", "dendropy/datamodel/charmatrixmodel.py", "            self.append(None)\n            to_add -= 1", "            self.append(None)", "set_at: loop counter not decremented"),
+    ("C11", "dendropy/datamodel/taxonmodel.py", "        self._taxa.clear()\n        self._accession_index_taxon_map.clear()",
+     "        self._accession_index_taxon_map.clear()", "clear: the member list keeps taxa that are no longer keys of the accession map"),
+    ("C11", "dendropy/datamodel/taxonmodel.py", "        taxon = Taxon(label=label)\n        self.add_taxon(taxon)\n        return taxon",
+     "        taxon = Taxon(label=label)\n        return taxon", "new_taxon: the new taxon is returned without being added"),
+    ("C11", "dendropy/datamodel/taxonmodel.py", "        if taxon is not None:\n            return taxon\n        if not self.is_mutable:\n            raise error.ImmutableTaxonNamespaceError(\"Taxon '{}' not in TaxonNamespace, and",
+     "        if taxon is not None:\n            return Taxon(label=label)\n        if not self.is_mutable:\n            raise error.ImmutableTaxonNamespaceError(\"Taxon '{}' not in TaxonNamespace, and",
+     "require_taxon: a known label yields a fresh non-member"),
     ("C12", "dendropy/datamodel/taxonmodel.py", "            for taxon in self._taxa:\n                memo[id(taxon)] = taxon\n        return memo",
      "            for taxon in self._taxa[1:]:\n                memo[id(taxon)] = taxon\n        return memo", "populate_memo: the first taxon is not entered (it would be copied)"),
     ("C12", "dendropy/datamodel/taxonmodel.py", "            memo[id(self)] = self\n            for taxon in self._taxa:\n                memo[id(taxon)] = taxon",
